@@ -106,8 +106,19 @@ class Sched:
         self.active = True
         self.cur = 0
         self.sem[0].release()
-        for t in ths:
-            t.join(timeout)
+        # wait for the threads; a deadlock is declared only when threads are alive and the
+        # switch-point counter has not moved for `timeout` seconds (a loaded machine slows the
+        # run down but keeps it moving)
+        import time as _time
+
+        last_k, last_t = -1, _time.monotonic()
+        while any(t.is_alive() for t in ths):
+            for t in ths:
+                t.join(0.05)
+            if self.k != last_k:
+                last_k, last_t = self.k, _time.monotonic()
+            elif _time.monotonic() - last_t > timeout:
+                break
         self.active = False
         SCHED = None
         alive = [t.is_alive() for t in ths]
